@@ -588,6 +588,124 @@ fn check_mut_request(
     ctx.outcome(mix(fnv(root.bytes()), one.result.is_some() as u64));
 }
 
+/// Mutable split whose parts are then split *immutably* (the parts are `ImageViewMut`, hence also
+/// `ImageView`): the root carries position tags, nothing is painted, every immutable sub-part must
+/// read exactly the tags of its rectangle.
+struct MutThenRef {
+    dir: Dir,
+    start: u32,
+    size: u32,
+    parts: u32,
+    second: (Dir, u32, u32, u32),
+    root_w: u32,
+    view: Rect,
+    first_ok: bool,
+    checked: u64,
+    err: Option<String>,
+}
+
+impl MutVisitor for MutThenRef {
+    fn visit<V: ImageViewMut<Pixel = U16>>(&mut self, v: &mut V) {
+        let (d2, s2, z2, p2) = self.second;
+        macro_rules! run {
+            ($got:expr) => {{
+                if let Some(mut ps) = $got {
+                    self.first_ok = true;
+                    let mut off = 0u32;
+                    for (k, part) in ps.iter_mut().enumerate() {
+                        let len = if self.dir == Dir::H { part.height() } else { part.width() };
+                        let r = if self.dir == Dir::H {
+                            Rect { x: self.view.x, y: self.view.y + self.start + off, w: self.view.w, h: len }
+                        } else {
+                            Rect { x: self.view.x + self.start + off, y: self.view.y, w: len, h: self.view.h }
+                        };
+                        off += len;
+                        let ext2 = if d2 == Dir::H { r.h } else { r.w };
+                        let valid2 = !(p2 > z2 || z2 > ext2 || s2 > ext2 - z2);
+                        macro_rules! sub {
+                            ($g2:expr) => {{
+                                match ($g2, valid2) {
+                                    (None, false) => {}
+                                    (None, true) => self.err = Some(format!("immutable split of mutable part {} returned None for a valid request", k)),
+                                    (Some(_), false) => self.err = Some(format!("immutable split of mutable part {} returned parts for an invalid request", k)),
+                                    (Some(qs), true) => {
+                                        if qs.len() != p2 as usize {
+                                            self.err = Some(format!("immutable split of mutable part {}: {} parts instead of {}", k, qs.len(), p2));
+                                        }
+                                        let mut o2 = 0u32;
+                                        for (j, q) in qs.iter().enumerate() {
+                                            let l2 = if d2 == Dir::H { q.height() } else { q.width() };
+                                            let qr = if d2 == Dir::H { Rect { x: r.x, y: r.y + s2 + o2, w: r.w, h: l2 } } else { Rect { x: r.x + s2 + o2, y: r.y, w: l2, h: r.h } };
+                                            o2 += l2;
+                                            if (q.width(), q.height()) != (qr.w, qr.h) {
+                                                self.err = Some(format!("sub-part {}.{} is {}x{}, expected {}x{}", k, j, q.width(), q.height(), qr.w, qr.h));
+                                                continue;
+                                            }
+                                            let mut rows = 0u32;
+                                            for (yy, row) in q.iter_rows(0).enumerate() {
+                                                rows += 1;
+                                                if row.len() != qr.w as usize {
+                                                    self.err = Some(format!("sub-part {}.{} row of {} pixels, width {}", k, j, row.len(), qr.w));
+                                                    break;
+                                                }
+                                                for (xx, px) in row.iter().enumerate() {
+                                                    let want = ((qr.y + yy as u32) * self.root_w + qr.x + xx as u32 + 1) as u16;
+                                                    if px.0 != want {
+                                                        self.err = Some(format!("sub-part {}.{} pixel ({},{}) reads tag {} instead of {} (root pixel ({},{}))", k, j, xx, yy, px.0, want, qr.x + xx as u32, qr.y + yy as u32));
+                                                    }
+                                                    self.checked += 1;
+                                                }
+                                            }
+                                            if rows != qr.h {
+                                                self.err = Some(format!("sub-part {}.{} yields {} rows, height {}", k, j, rows, qr.h));
+                                            }
+                                        }
+                                        if o2 != z2 {
+                                            self.err = Some(format!("immutable sub-parts of mutable part {} cover {} of {}", k, o2, z2));
+                                        }
+                                    }
+                                }
+                            }};
+                        }
+                        if d2 == Dir::H {
+                            sub!(part.split_by_height(s2, nz(z2), nz(p2)))
+                        } else {
+                            sub!(part.split_by_width(s2, nz(z2), nz(p2)))
+                        }
+                    }
+                }
+            }};
+        }
+        if self.dir == Dir::H {
+            run!(v.split_by_height_mut(self.start, nz(self.size), nz(self.parts)))
+        } else {
+            run!(v.split_by_width_mut(self.start, nz(self.size), nz(self.parts)))
+        }
+    }
+}
+
+#[allow(clippy::too_many_arguments)]
+fn check_mut_then_ref(ctx: &mut Ctx, kind: usize, root_dims: (u32, u32), view: Rect, dir: Dir, start: u32, size: u32, parts: u32, second: (Dir, u32, u32, u32)) {
+    let mut root = Raw::from_fn(PT::U16, root_dims.0, root_dims.1, |x, y, _| (y * root_dims.0 + x + 1) as f64);
+    let before = root.bytes().to_vec();
+    let mut one = MutThenRef { dir, start, size, parts, second, root_w: root_dims.0, view, first_ok: false, checked: 0, err: None };
+    with_mut_view(kind, &mut root, view, &mut one);
+    ctx.ops += 1;
+    ctx.traces += one.checked;
+    let name = MUT_KINDS[kind];
+    let det = |msg: String| json!({"direction": format!("{:?}", dir), "view_in_root": format!("{:?}", view), "root": [root_dims.0, root_dims.1], "start": start, "size": size, "parts": parts, "second_level_immutable": format!("{:?}", second), "what": msg});
+    if let Some(e) = one.err.take() {
+        ctx.violation(format!("C14|mut {}|immutable split of a mutable part is not the expected tiling", name), || det(e));
+    }
+    if !one.first_ok {
+        ctx.violation(format!("C14|mut {}|returned None for a valid request", name), || det(String::new()));
+    }
+    if root.bytes() != &before[..] {
+        ctx.violation(format!("C14|mut {}|splitting modified the image", name), || det(String::new()));
+    }
+    ctx.outcome(mix(one.checked, fnv(root.bytes())));
+}
+
 pub fn prop(tier: Tier, _seed: u64) -> Prop {
     let mut p = Prop::new("C14");
     p.both_profiles = true;
@@ -673,6 +791,8 @@ pub fn prop(tier: Tier, _seed: u64) -> Prop {
                         let other = if d2 == Dir::H { if dir == Dir::H { size / parts } else { h } } else if dir == Dir::W { size / parts } else { w };
                         for (s2, z2, p2) in sub_triples(other.max(1)) {
                             check_mut_request(ctx, kind, (rw, rh), view, dir, start, size, parts, Some((d2, s2, z2, p2)));
+                            // the same request with an *immutable* second level
+                            check_mut_then_ref(ctx, kind, (rw, rh), view, dir, start, size, parts, (d2, s2, z2, p2));
                             ctx.nontrivial += 1;
                         }
                     }
@@ -682,7 +802,7 @@ pub fn prop(tier: Tier, _seed: u64) -> Prop {
         ctx.class(mix(kind as u64 + 200, mix(margin as u64, (w.min(3) * 4 + h.min(3)) as u64 * 2 + d[4] as u64)));
     }).isolated());
 
-    p.rule = "view kind (7 immutable, 5 mutable incl. nested crops and a harness view that uses only the trait defaults) x parent margins {0,2} x view sizes (1..B)^2 x both directions x every (start,size,parts) incl. invalid ones and values near u32::MAX; immutable parts are read back against the rectangle model (tags), mutable parts paint their index and the root image is compared with the expected index map (sentinel outside); second level: every part is split again in both directions (sub-triples) for views up to B2 x B2".into();
+    p.rule = "view kind (7 immutable, 5 mutable incl. nested crops and a harness view that uses only the trait defaults) x parent margins {0,2} x view sizes (1..B)^2 x both directions x every (start,size,parts) incl. invalid ones and values near u32::MAX; immutable parts are read back against the rectangle model (tags), mutable parts paint their index and the root image is compared with the expected index map (sentinel outside); second level: every part is split again in both directions (sub-triples) for views up to B2 x B2 — mutable parts both mutably (paint) and immutably (position tags read back)".into();
     p.bounds = json!({"B": b, "B2": b2});
     p.assumptions = vec!["which parts receive the remainder rows is not prescribed and not checked (only sizes differing by at most one, order and contiguity)".into()];
     p
